@@ -44,4 +44,9 @@ def run(P, R, L):
     K.src3_level_iterator_file_selection(P, R, L)
     R.clause("WRAP-1", "a wrapper iterator repositions its child on every seek; a shortcut may trust the cached position only behind a test of its own validity")
     K.wrap1_delegation(P, R, L)
+    from . import blind
+    R.clause("BSRCH-1", "BlockIter::seek is a lower-bound binary search: a seek lands on the first entry not less than the target")
+    R.once(blind.bsrch1_lower_bound_searches, P, R, L)
+    R.clause("BLK-1", "the block iterator's cursor: one step behind is_valid(), parked at len when a step is refused, first = 0, last = len - 1")
+    R.once(blind.blk1_block_cursor, P, R, L)
     R.not_decided += ["prefix compression, separators, seek positions, iteration order (computed bytes)"]
